@@ -1,2 +1,24 @@
-CLAIMED = {}
+GEN_NOTE = ("Trusted base: x86-64 Linux/glibc page protection and signal delivery; gcc -O1 builds of the working tree made by lib/vlib.py; "
+            "the harness' reading of each function's doc comment (rows.c flags). Exploration only: absence of findings on the explored cases, no proof. "
+            "Families covered so far: COPY CAT MEMCPY FILL INPLACE QUERY rows of harness/rows.c.")
+CLAIMED = {
+ "C01": dict(technique="property-based testing: exhaustive small-scope enumeration + seeded random generation over a choice-sequence engine, read-only guard pages and canaries as oracle, shrinking to a replay file",
+             level_text="Every generated call with truthful size declarations is executed with its buffers flush against write-protected guard pages and surrounded by canaries; a store outside the declared destination faults or corrupts a canary and is reported. Small-scope lattice enumerated exhaustively, larger sizes sampled.",
+             level_note=GEN_NOTE, design_ref="DESIGN.md 3 C01"),
+ "C02": dict(technique="property-based testing: exhaustive small-scope enumeration + seeded random generation, PROT_NONE guard pages flush against every declared extent as oracle, shrinking",
+             level_text="Every operand is placed so that its declared extent ends (or starts) at an inaccessible page; any load outside the declared extents faults and is attributed to the operand. Unterminated arrays exactly filling their size are a generated class.",
+             level_note=GEN_NOTE, design_ref="DESIGN.md 3 C02"),
+ "C03": dict(technique="property-based testing: generated calls incl. every failure class, garbage-prefilled destinations, oracle = a NUL exists within dmax after return; two library builds (null-slack on/off)",
+             level_text="After each generated call to a string-producing function with a usable destination the harness looks for a terminator inside the first dmax elements; documented zero-length no-ops are exempt.",
+             level_note=GEN_NOTE, design_ref="DESIGN.md 3 C03"),
+ "C04": dict(technique="property-based testing: generated failing calls, position-coded destination prefill vs disjoint source alphabet, oracle = dest[0]==0, no source value visible, all dmax cells zero for the failure classes the property names, source unchanged",
+             level_text="Failures are forced through every argument class; anything a failed call wrote is recognisable because destination prefill and source alphabets are disjoint.",
+             level_note=GEN_NOTE, design_ref="DESIGN.md 3 C04"),
+ "C05": dict(technique="property-based testing: arguments drawn independently from violation classes, counting constraint handlers as observers, oracle = handler invoked exactly once with the returned code when a documented constraint is definitely violated, never on benign-by-construction calls",
+             level_text="A reference constraint model (clear-cut predicates only) decides when a violation is certain and when a call is certainly valid; in between only the generic invariants (at most one handler call, handler code == returned code, failure return implies handler) are judged.",
+             level_note=GEN_NOTE, design_ref="DESIGN.md 3 C05"),
+ "C08": dict(technique="property-based testing: dirty destinations, result-length x dmax sweep across the 0x20 loop/memset switch, oracle = every element from the terminator to dmax is zero (null-slack build) / terminator present (no-slack build)",
+             level_text="Success cases of the rows whose documentation promises nulled slack are checked element by element behind the terminator.",
+             level_note=GEN_NOTE, design_ref="DESIGN.md 3 C08"),
+}
 UNCLAIMED = {}
